@@ -321,6 +321,6 @@ CLAIM = {
             "zero-volume fills at the previous close / first open; a trace rule shows every loop iteration appends once and advances "
             "the clock by 60000 once, which extends the result to any length. add_candle and add_multiple_1m_candles are interpreted "
             "on /repo's own DynamicNumpyArray for the empty / newer / same / older-stored / older-unknown cases on stores of 2..26 "
-            "candles (every look-back position): append vs replace-in-place vs ignore, no duplicate timestamps, order preserved. The spacing validation in research.backtest precedes the simulator for every candle set. add_candle is also interpreted on stores with missing minutes (strictly increasing, not evenly spaced).",
+            "candles (every look-back position): append vs replace-in-place vs ignore, no duplicate timestamps, order preserved. The spacing validation in research.backtest precedes the simulator for every candle set. add_candle is also interpreted on stores with missing minutes (strictly increasing, not evenly spaced). _fill_absent_candles is also interpreted on batches that run past the requested interval.",
     "note": "Trusted: interpreter semantics incl. numpy table model; pydash.find modelled as first match.",
 }
